@@ -818,7 +818,7 @@ func (g *c15Gen) step(name string, ss ast.Schemas) *c15Step {
 		n := r.intn(3)
 		seen := map[string]bool{}
 		for i := 0; i < n; i++ {
-			k := pick(r, []string{"kind", "custom", "skip_variant_plugin_registration", "x", "string_format_datetime"})
+			k := pick(r, []string{"kind", "custom", "skip_variant_plugin_registration", "x", "string_format_datetime", "disjunction_of_scalars"})
 			if !seen[k] {
 				seen[k] = true
 				st.KVs = append(st.KVs, c15KV{k, g.hintVal()})
@@ -884,6 +884,33 @@ func (g *c15Gen) schemas() (ss ast.Schemas) {
 				t = ast.NewScalar(ast.KindInt64, ast.Value(int64(3)))
 			}
 			s.AddObject(ast.NewObject(s.Package, name, t))
+		}
+		if r.chance(25) {
+			// structs generated from a disjunction keep it as the value of a hint (VIR: gen / geninfo)
+			objs := c15ObjList(s)
+			names := []string{}
+			for _, o := range objs {
+				names = append(names, o.Name)
+			}
+			for i := range objs {
+				c15Walk(&objs[i].Type, false, func(t *ast.Type) {
+					if t.Kind != ast.KindStruct || t.Struct == nil || t.Hints == nil || !r.chance(35) {
+						return
+					}
+					if r.chance(60) {
+						d := ast.DisjunctionType{Discriminator: pick(r, []string{"kind", "type"}), DiscriminatorMapping: map[string]string{}}
+						for k := 1 + r.intn(2); k > 0; k-- {
+							n := pick(r, names)
+							d.Branches = append(d.Branches, ast.NewRef(s.Package, n))
+							d.DiscriminatorMapping[pick(r, []string{"k1", "k2", "k3"})] = n
+						}
+						t.Hints[ast.HintDiscriminatedDisjunctionOfRefs] = d
+					} else {
+						t.Hints[ast.HintDisjunctionOfScalars] = ast.DisjunctionType{Branches: ast.Types{ast.String(), ast.Bool(), ast.NewRef(s.Package, pick(r, names))}}
+					}
+				})
+			}
+			c15SetObjs(s, objs, true)
 		}
 		if r.chance(50) {
 			objs := c15ObjList(s)
